@@ -17,6 +17,7 @@ from fractions import Fraction
 
 from ..core import frac
 from . import _c09cols as _cols
+from . import _c09glue as _glue
 
 LEVEL = "proof"
 RULE = ("op cov: synthetic coordinate-sorted BAM (1-3 contigs incl. names whose sort order differs from header order, "
@@ -46,7 +47,11 @@ RULE = ("op cov: synthetic coordinate-sorted BAM (1-3 contigs incl. names whose 
         "real one (clause same_table_any_worker_schedule + the clauses of op cov). tag cigar-rich: reads with 2-6 "
         "aligned blocks separated by I / D / N / P, two of them in a row, insertion after the leading clip, H+S at "
         "both ends. non-trivial = valid input with a bin of positive depth (covsched: a pool run in which at least "
-        "two tasks finished); distinct by hash")
+        "two tasks finished); distinct by hash. op covglue (round 5b): do_coverage itself with its callees replaced by "
+        "recording stand-ins: ensure_bam_sorted answers {yes, no} x regions file {empty, newlines, white space | record "
+        "first, after blank lines, comment line} x by_count x min_mapq {0,1,10,30,60,255} x processes {None,-3,-1,0,1,2,4,"
+        "16} x call style {keywords, positional, defaults left out, mixed} x fasta given or not x mapped-read total "
+        "{0, 1000}; every combination of the four decision atoms once; non-trivial = a table came back")
 EXHAUSTIVE = {"quick": False, "thorough": False}
 ASSUMPTIONS = [
     "regions file lines are records or '#' comments (what to_chunks recognises); every record has the same number "
@@ -681,6 +686,7 @@ def corpus():
         ([], 3), (["#a\n"], 1), (["a\n", "b\n", "c\n"], 3), (["a\n", "b\n", "c\n", "d\n"], 3),
         (["#x\n", "a\n", "#y\n", "b\n", "#z\n"], 1), (["a\n", "b\n", "#tail\n"], 2), (["a\n", "b"], 5))]
     c += _cols.corpus()
+    c += _glue.corpus()
     return c
 
 
@@ -722,6 +728,8 @@ def gen_cases(rng, tier):
             cases.append(_chunk_case(rng, n=nl, size=5000, tag="chunks-default-size"))
     # the text side of bedcov (op covcols, harness/props/_c09cols.py); drawn last
     cases += _cols.gen_cases(rng, tier)
+    # the glue do_coverage / interval_coverages (op covglue, harness/props/_c09glue.py); drawn last
+    cases += _glue.gen_cases(rng, tier)
     return cases
 
 
@@ -887,6 +895,8 @@ def _api(coverage, bed, bam, algo, q, procs, fasta, style):
 def run_impl(case):
     if case["op"] == "covcols":
         return _cols.run_impl(case)
+    if case["op"] == "covglue":
+        return _glue.run_impl(case)
     from cnvlib import coverage, parallel
     i = case["in"]
     if case["op"] == "covsched":
@@ -959,6 +969,8 @@ def run_impl(case):
 def to_line(case, impl):
     if case["op"] == "covcols":
         return _cols.to_line(case, impl)
+    if case["op"] == "covglue":
+        return _glue.to_line(case, impl)
     i = case["in"]
     if case["op"] == "chunks":
         line = {"op": "chunks", "in": {"lines": i["lines"], "size": i["size"]}}
@@ -986,6 +998,8 @@ def _close(a, b):
 def judge(case, impl, resp):
     if case["op"] == "covcols":
         return _cols.judge(case, impl, resp)
+    if case["op"] == "covglue":
+        return _glue.judge(case, impl, resp)
     if isinstance(impl, dict) and "__error__" in impl:
         return ["raises_" + impl["__error__"]], [], None
     if "error" in resp:
@@ -1041,6 +1055,8 @@ def judge(case, impl, resp):
 def nontrivial(case, impl, resp):
     if case["op"] == "covcols":
         return _cols.nontrivial(case, impl, resp)
+    if case["op"] == "covglue":
+        return _glue.nontrivial(case, impl, resp)
     if isinstance(impl, dict):
         return False
     if case["op"] == "chunks":
@@ -1053,6 +1069,9 @@ def nontrivial(case, impl, resp):
 def shrink(case):
     if case["op"] == "covcols":
         yield from _cols.shrink(case)
+        return
+    if case["op"] == "covglue":
+        yield from _glue.shrink(case)
         return
     i = case["in"]
     if case["op"] == "chunks":
